@@ -522,9 +522,9 @@ class SerializationSchemaBuilder(
             for field in fields
             if not field.is_aggregate
             for required in [
-                field.required
-                if is_typed_dict(get_origin_or_type(tp))
-                else not field.skippable(
+                # required TypedDict keys can still be skipped, e.g. with exclude_none
+                (not is_typed_dict(get_origin_or_type(tp)) or field.required)
+                and not field.skippable(
                     settings.serialization.exclude_defaults,
                     settings.serialization.exclude_none,
                 )
